@@ -8,40 +8,55 @@ Open Scope N_scope.
 Import LC LCS.
 
 (* ------------------------------------------------------------------ the import loop *)
+Definition src_missing (c : cfgT) (f : fsT) (x : xmount) : bool :=
+  is_abs (x_source x) && negb (exists_ f (x_source x))
+  && negb (in_any_layer_dir 64 (c_layers c) (x_source x)).
 Definition x_miss (c : cfgT) (f : fsT) (x : xmount) : bool :=
-  negb (exists_ f (x_mount x))
-  || (is_abs (x_source x) && negb (exists_ f (x_source x))
-      && negb (in_any_layer_dir 64 (c_layers c) (x_source x))).
+  negb (exists_ f (x_mount x)) || src_missing c f x.
 Definition x_mounted (ms : list mount) (x : xmount) : bool :=
   match get_mount ms (x_mount x) with Some _ => true | None => false end.
+Definition x_is_bind (x : xmount) : bool := beq (x_fstype x) (bs "bind") || beq (x_fstype x) (bs "rbind").
+(* what is mounted is not the configured thing: source not among GetMountSources, or (other
+   than binds) a different file-system type *)
 Definition x_wrong (ms : list mount) (ds : list device) (x : xmount) : bool :=
   match get_mount ms (x_mount x) with
   | Some mnt => negb (source_is_expected ds mnt (x_source x))
+                || (negb (x_is_bind x) && negb (beq (m_fstype mnt) (x_fstype x)))
   | None => false
   end.
+(* counted as incorrect: any mount over a missing host source, a wrong mount otherwise *)
+Definition x_bad (c : cfgT) (f : fsT) (ms : list mount) (ds : list device) (x : xmount) : bool :=
+  exists_ f (x_mount x) && (if src_missing c f x then x_mounted ms x else x_wrong ms ds x).
 
 Lemma fl_step_eq c f ms ds num bad missing x :
   fl_step c f ms ds (num, bad, missing) x =
-  if x_miss c f x then (num, bad, true)
+  if negb (exists_ f (x_mount x)) then (num, bad, true)
+  else if src_missing c f x then (num, bad || x_mounted ms x, true)
   else (if x_mounted ms x then num + 1 else num, bad || x_wrong ms ds x, missing).
 Proof.
-  unfold fl_step, x_miss, x_mounted, x_wrong.
-  destruct (negb (exists_ f (x_mount x))); cbn [orb]; [reflexivity|].
+  unfold fl_step, src_missing, x_mounted, x_wrong, x_is_bind.
+  destruct (negb (exists_ f (x_mount x))); [reflexivity|].
   destruct (is_abs (x_source x) && negb (exists_ f (x_source x))
             && negb (in_any_layer_dir 64 (c_layers c) (x_source x))); [reflexivity|].
-  destruct (get_mount ms (x_mount x)); [reflexivity|now rewrite orb_false_r].
+  destruct (get_mount ms (x_mount x)); [now rewrite orb_assoc|now rewrite orb_false_r].
 Qed.
 
 Lemma fold_fl_step c f ms ds xs : forall num bad missing,
   fold_left (fl_step c f ms ds) xs (num, bad, missing) =
   (num + N.of_nat (length (filter (fun x => negb (x_miss c f x) && x_mounted ms x) xs)),
-   bad || existsb (fun x => negb (x_miss c f x) && x_wrong ms ds x) xs,
+   bad || existsb (x_bad c f ms ds) xs,
    missing || existsb (x_miss c f) xs).
 Proof.
   induction xs as [|x r IH]; intros num bad missing; cbn [fold_left filter existsb length].
   - rewrite N.add_0_r, !orb_false_r. reflexivity.
-  - rewrite fl_step_eq. destruct (x_miss c f x); cbn [negb andb orb].
-    + rewrite IH. now rewrite !orb_true_r.
+  - rewrite fl_step_eq.
+    assert (Em : x_miss c f x = negb (exists_ f (x_mount x)) || src_missing c f x) by reflexivity.
+    assert (Eb : x_bad c f ms ds x = exists_ f (x_mount x) && (if src_missing c f x then x_mounted ms x else x_wrong ms ds x)) by reflexivity.
+    rewrite Em, Eb. clear Em Eb.
+    destruct (exists_ f (x_mount x)); cbn [negb andb orb].
+    2:{ rewrite IH. now rewrite !orb_true_r. }
+    destruct (src_missing c f x); cbn [negb andb orb].
+    + rewrite IH. now rewrite !orb_true_r, orb_assoc.
     + rewrite IH. destruct (x_mounted ms x); cbn [length].
       * rewrite orb_assoc. rewrite Nat2N.inj_succ. rewrite <- N.add_1_l, N.add_assoc. reflexivity.
       * rewrite orb_assoc. reflexivity.
